@@ -36,6 +36,7 @@ let () =
       | "same" -> ok id "+same-as-sequential"
       | "linearizable" -> ok id "+order-dependent-linearizable"
       | "orderdep" -> ok id "order-dependent-not-compared"
+      | "skipped" -> ok id "not-run-after-four-hangs"
       | "race" ->
         let s1 = frames f.(5) and s2 = frames f.(6) in
         let clause = "data_race: " ^ detail in
